@@ -819,6 +819,7 @@ func (n *TxNotifier) CancelConf(confRequest ConfRequest, confID uint64) {
 	close(ntfn.Event.Confirmed)
 	close(ntfn.Event.Updates)
 	close(ntfn.Event.NegativeConf)
+	close(ntfn.Event.Done)
 
 	// Finally, we'll clean up any lingering references to this
 	// notification.
